@@ -157,7 +157,7 @@ def trig_facts(terms, max_facts=4000):
         if reals._has_var(arg):
             return
         lin, const = linear_form(arg)
-        items = sorted(((a, c) for a, c in lin.values()), key=lambda p: str(p[0]))
+        items = sorted(((a, c) for a, c in lin.values()), key=lambda p: p[0].get_id())
         if const != 0:
             items.append((z3.RealVal(1), const))
         # rational multiples: rescale the atom so that all coefficients are integers
